@@ -64,4 +64,71 @@ example : command (commandBytes (sb "DELETESCRIPT") [.str (sb "a\"\r\nLOGOUT")])
   have := command_commandBytes (sb "DELETESCRIPT") [.str (sb "a\"\r\nLOGOUT")] [] (by decide) (by decide)
   simpa [valueOf] using this
 
+/-! ## each public call: exactly one command line, nothing else -/
+
+theorem okOf_writes (x : Res Reply) : (okOf x).2.writes = x.2.writes := by
+  obtain ⟨v, c⟩ := x
+  cases v <;> rfl
+
+/-- `putscript`: one PUTSCRIPT line carrying the caller's name and content -/
+theorem putscript_writes_one_command (c : Client) (name content : Bytes) (ha : c.authenticated = true)
+    (hc : c.connected = true) :
+    (putscript c name content).2.writes = c.writes ++ [(c.tls, commandBytes (sb "PUTSCRIPT") [.str name, .lit content])] := by
+  simp only [putscript, guarded, ha, if_true, okOf_writes]
+  exact exchange_writes_one_command c _ _ none hc
+
+theorem deletescript_writes_one_command (c : Client) (name : Bytes) (ha : c.authenticated = true) (hc : c.connected = true) :
+    (deletescript c name).2.writes = c.writes ++ [(c.tls, commandBytes (sb "DELETESCRIPT") [.str name])] := by
+  simp only [deletescript, guarded, ha, if_true, okOf_writes]
+  exact exchange_writes_one_command c _ _ none hc
+
+theorem setactive_writes_one_command (c : Client) (name : Bytes) (ha : c.authenticated = true) (hc : c.connected = true) :
+    (setactive c name).2.writes = c.writes ++ [(c.tls, commandBytes (sb "SETACTIVE") [.str name])] := by
+  simp only [setactive, guarded, ha, if_true, okOf_writes]
+  exact exchange_writes_one_command c _ _ none hc
+
+theorem havespace_writes_one_command (c : Client) (name : Bytes) (size : Nat) (ha : c.authenticated = true)
+    (hc : c.connected = true) :
+    (havespace c name size).2.writes = c.writes ++ [(c.tls, commandBytes (sb "HAVESPACE") [.str name, .num size])] := by
+  simp only [havespace, guarded, ha, if_true, okOf_writes]
+  exact exchange_writes_one_command c _ _ none hc
+
+/-- `getscript`: whatever the reply is (content, NO, undecodable bytes), one GETSCRIPT line was written -/
+theorem getscript_writes_one_command (c : Client) (name : Bytes) (ha : c.authenticated = true) (hc : c.connected = true) :
+    (getscript c name).2.writes = c.writes ++ [(c.tls, commandBytes (sb "GETSCRIPT") [.str name])] := by
+  have h := exchange_writes_one_command c (sb "GETSCRIPT") [.str name] none hc
+  simp only [getscript, guarded, ha, if_true]
+  revert h
+  generalize sendCommand c (sb "GETSCRIPT") [.str name] [] none = x
+  intro h
+  obtain ⟨v, c1⟩ := x
+  cases v with
+  | error e => exact h
+  | ok rep =>
+    simp only
+    split
+    · split <;> exact h
+    · exact h
+
+theorem listscripts_writes_one_command (c : Client) (ha : c.authenticated = true) (hc : c.connected = true) :
+    (listscripts c).2.writes = c.writes ++ [(c.tls, commandBytes (sb "LISTSCRIPTS") [])] := by
+  have h := exchange_writes_one_command c (sb "LISTSCRIPTS") [] none hc
+  simp only [listscripts, guarded, ha, if_true]
+  revert h
+  generalize sendCommand c (sb "LISTSCRIPTS") [] [] none = x
+  intro h
+  obtain ⟨v, c1⟩ := x
+  cases v with
+  | error e => exact h
+  | ok rep =>
+    simp only
+    split
+    · exact h
+    · split <;> exact h
+
+/-- an unauthenticated call writes nothing at all -/
+theorem unauthenticated_call_writes_nothing {α : Type} (c : Client) (f : Client → Res α) (h : c.authenticated = false) :
+    (guarded c f).2.writes = c.writes := by
+  simp [guarded, h]
+
 end C08
